@@ -1942,3 +1942,7 @@ MA('C19', 'rotation in space uses the binormal with the wrong sign',
    'odl/tomo/util/utility.py', 'rotation_matrix_from_to',
    'binormal = np.cross(normal, from_vec)',
    'binormal = np.cross(from_vec, normal)', 'R9')
+MA('C17', 'power-space ufunc results wrapped in the input space',
+   'odl/space/pspace.py', 'ProductSpaceElement.__array_wrap__',
+   'return self.space.astype(array.dtype).element(array)',
+   'return self.space.element(array)', 'R6')
